@@ -100,6 +100,22 @@ async def drive_tool(spec, run, steps=None, close=False, keep_items=True):
             except StopAsyncIteration:
                 log.append(("end", "stop"))
                 run.end = "stop"
+                # the end is final: a consumer that asks again is told the same, however often
+                for _ in range(spec.p.get("again", 0)):
+                    try:
+                        item = await anext()
+                    except StopAsyncIteration:
+                        log.append(("end", "stop"))
+                    except Cancel as err:
+                        run.cancelled = err
+                        run.end = "cancel"
+                        raise
+                    except BaseException as err:
+                        log.append(("end", "exc", type(err).__name__))
+                        break
+                    else:
+                        log.append(("yield", ident(item)))
+                        del item
                 break
             except Cancel as err:
                 run.cancelled = err
@@ -162,6 +178,16 @@ def ref_tool(spec, steps=None, fault=None, fault2=None):
         except StopIteration:
             log.append(("end", "stop"))
             run.end = "stop"
+            for _ in range(spec.p.get("again", 0)):
+                try:
+                    item = next(it)
+                except StopIteration:
+                    log.append(("end", "stop"))
+                except BaseException as err:
+                    log.append(("end", "exc", type(err).__name__))
+                    break
+                else:
+                    log.append(("yield", ident(item)))
             break
         except BaseException as err:
             log.append(("end", "exc", type(err).__name__))
